@@ -32,6 +32,48 @@ const LN: usize = n / 8; // 64-bit lanes in an n-byte string
 const LM: usize = m / 8;
 
 // ------------------------------------------------------------------------
+// Harness plumbing.
+//
+// vc!(cond) is vc!(cond) unless the harness stubs covers_on by
+// covers_off.  twin! emits every harness twice: NAME (with the vacuity guards)
+// and verif_ncx_NAME-suffix (without them).  Kani prints one concrete-playback
+// test per satisfied cover AND per failed check, and the runner replays the
+// first one; so when NAME fails the driver re-runs the cover-free twin and
+// replays that.
+
+fn covers_on() -> bool {
+    true
+}
+
+fn covers_off() -> bool {
+    false
+}
+
+macro_rules! vc {
+    ($c:expr) => {
+        if covers_on() {
+            kani::cover!($c);
+        }
+    };
+}
+
+macro_rules! twin {
+    ($(#[$a:meta])* fn $name:ident / $nc:ident => $call:expr) => {
+        #[kani::proof]
+        $(#[$a])*
+        fn $name() {
+            $call
+        }
+        #[kani::proof]
+        $(#[$a])*
+        #[kani::stub(covers_on, covers_off)]
+        fn $nc() {
+            $call
+        }
+    };
+}
+
+// ------------------------------------------------------------------------
 // Deterministic stand-ins for the hash functions.
 
 // digest of the three "address" arguments I (16 bytes), u32str (4), u16str (2)
@@ -548,9 +590,12 @@ fn is_native_no() -> bool {
 // H0: constants of the parameter set against the RFC tables; coef / checksum
 // for all Q (bit-precise); compute_public
 
-#[kani::proof]
-#[kani::unwind(66)] // kani::any() of the 64-node tree
-fn verif_lms_params_coef() {
+twin! {
+    #[kani::unwind(66)] // kani::any() of the 64-node tree
+    fn verif_lms_params_coef / verif_ncx_lms_params_coef => params_coef_body()
+}
+
+fn params_coef_body() {
     assert!(n == EXP_N && m == EXP_M && w == EXP_W && h == EXP_H);
     assert!(p == EXP_P && ls == EXP_LS);
     assert!(key_type == EXP_LMS_TYPE && ots_type == EXP_OTS_TYPE);
@@ -576,7 +621,7 @@ fn verif_lms_params_coef() {
     let c: usize = kani::any();
     kani::assume(c < 16);
     assert!(pk.I[c] == sk.I[c]);
-    kani::cover!(pk.T1[b] == 0x5a && pk.I[c] == 0xa5);
+    vc!(pk.T1[b] == 0x5a && pk.I[c] == 0xa5);
     // checksum over all n-byte Q
     let qq: [u8; n] = kani::any();
     let ck = checksum(&qq);
@@ -588,9 +633,9 @@ fn verif_lms_params_coef() {
     assert!(coef(&s, i) as u32 == ref_coef(&s, i));
     let qc = ref_qck(&qq);
     assert!(coef(&qc, i) as u32 == ref_coef(&qc, i));
-    kani::cover!(ck == 0);
-    kani::cover!(ck as usize == ((1usize << EXP_W) - 1) * ((EXP_N * 8) / EXP_W) << EXP_LS);
-    kani::cover!(i == EXP_P - 1 && coef(&s, i) == 0x80);
+    vc!(ck == 0);
+    vc!(ck as usize == ((1usize << EXP_W) - 1) * ((EXP_N * 8) / EXP_W) << EXP_LS);
+    vc!(i == EXP_P - 1 && coef(&s, i) == 0x80);
 }
 
 // ------------------------------------------------------------------------
@@ -664,8 +709,8 @@ fn sign_state_body(anytree: bool, full: bool) {
             // exhaustion is absorbing: state bit-identical, nothing drawn from the RNG
             assert!(sk.current_leaf == old);
             assert!(rng.calls == 0 && rng.other == 0);
-            kani::cover!(old == NLEAF);
-            kani::cover!(old == 0xFFFF_FFFF);
+            vc!(old == NLEAF);
+            vc!(old == 0xFFFF_FFFF);
         }
         Some(sig) => {
             assert!(old < NLEAF);
@@ -684,27 +729,25 @@ fn sign_state_body(anytree: bool, full: bool) {
             embedded_ots_eq(&sig, &exp, full);
             // LMS type word
             assert!(ref_strtou32(&sig, 4 + EXP_OTS_SIGLEN) == EXP_LMS_TYPE);
-            kani::cover!(old == 0);
-            kani::cover!(old == NLEAF - 1);
+            vc!(old == 0);
+            vc!(old == NLEAF - 1);
         }
     }
 }
 
 // arbitrary tree: the symbolic authentication-path copy costs CBMC ~15M clauses
-#[kani::proof]
-#[kani::unwind(1126)] // ots_siglen + 2 (byte-wise comparison of the embedded LM-OTS signature)
-#[kani::stub(PrivateKey::ots_sign, ots_sign_pool)]
-fn verif_lms_sign_state_anytree() {
-    sign_state_body(true, true);
+twin! {
+    #[kani::unwind(1126)] // ots_siglen + 2 (byte-wise comparison of the embedded LM-OTS signature)
+    #[kani::stub(PrivateKey::ots_sign, ots_sign_pool)]
+    fn verif_lms_sign_state_anytree / verif_ncx_lms_sign_state_anytree => sign_state_body(true, true)
 }
 
 // constant (zero) tree: same claims, cheap; the authentication path for an
 // arbitrary tree is decided per leaf by verif_lms_sign_path_*
-#[kani::proof]
-#[kani::unwind(66)]
-#[kani::stub(PrivateKey::ots_sign, ots_sign_pool)]
-fn verif_lms_sign_state_tree0() {
-    sign_state_body(false, false);
+twin! {
+    #[kani::unwind(66)]
+    #[kani::stub(PrivateKey::ots_sign, ots_sign_pool)]
+    fn verif_lms_sign_state_tree0 / verif_ncx_lms_sign_state_tree0 => sign_state_body(false, false)
 }
 
 // Exhausted key, ANY current_leaf >= 2^h, arbitrary tree.  ots_sign is replaced
@@ -718,10 +761,13 @@ fn ots_sign_never<R: CryptoRng + RngCore>(_sk: PrivateKey, _rng: &mut R, _q: u32
     [0u8; ots_siglen]
 }
 
-#[kani::proof]
-#[kani::unwind(66)]
-#[kani::stub(PrivateKey::ots_sign, ots_sign_never)]
-fn verif_lms_sign_exhausted() {
+twin! {
+    #[kani::unwind(66)]
+    #[kani::stub(PrivateKey::ots_sign, ots_sign_never)]
+    fn verif_lms_sign_exhausted / verif_ncx_lms_sign_exhausted => sign_exhausted_body()
+}
+
+fn sign_exhausted_body() {
     let old: u32 = kani::any();
     kani::assume(old >= NLEAF);
     let mut sk = mk_key(old);
@@ -737,9 +783,9 @@ fn verif_lms_sign_exhausted() {
     assert!(rng.calls == 0 && rng.other == 0);
     let r2 = sk.sign(&mut rng, &msg);
     assert!(r2.is_none() && sk.current_leaf == old && rng.calls == 0);
-    kani::cover!(old == NLEAF);
-    kani::cover!(old == 0xFFFF_FFFF);
-    kani::cover!(old == 0x8000_0000);
+    vc!(old == NLEAF);
+    vc!(old == 0xFFFF_FFFF);
+    vc!(old == 0x8000_0000);
 }
 
 // ------------------------------------------------------------------------
@@ -791,7 +837,7 @@ fn sign_path_leaves(leaves: &[u32]) {
                     }
                     i += 1;
                 }
-                kani::cover!(t == leaves.len() - 1 && sig[EXP_SIGLEN - 1] == 0x33);
+                vc!(t == leaves.len() - 1 && sig[EXP_SIGLEN - 1] == 0x33);
             }
         }
         t += 1;
@@ -799,19 +845,19 @@ fn sign_path_leaves(leaves: &[u32]) {
 }
 
 // quick: both ends, both parities at every level (10 = 01010b, 21 = 10101b)
-#[kani::proof]
-#[kani::unwind(66)]
-#[kani::stub(PrivateKey::ots_sign, ots_sign_pool)]
-fn verif_lms_sign_path_q8() {
-    sign_path_leaves(&[0, 1, 2, 10, 21, 29, 30, 31]);
+twin! {
+    #[kani::unwind(66)]
+    #[kani::stub(PrivateKey::ots_sign, ots_sign_pool)]
+    fn verif_lms_sign_path_q8 / verif_ncx_lms_sign_path_q8 => sign_path_leaves(&[0, 1, 2, 10, 21, 29, 30, 31])
 }
 
-#[kani::proof]
-#[kani::unwind(66)]
-#[kani::stub(PrivateKey::ots_sign, ots_sign_pool)]
-fn verif_lms_sign_path_all() {
-    sign_path_leaves(&[0, 1, 2, 3, 4, 5, 6, 7, 8, 9, 10, 11, 12, 13, 14, 15, 16, 17, 18, 19, 20, 21, 22, 23,
-        24, 25, 26, 27, 28, 29, 30, 31]);
+const ALL_LEAVES: [u32; 32] = [0, 1, 2, 3, 4, 5, 6, 7, 8, 9, 10, 11, 12, 13, 14, 15, 16, 17, 18, 19, 20, 21, 22, 23,
+    24, 25, 26, 27, 28, 29, 30, 31];
+
+twin! {
+    #[kani::unwind(66)]
+    #[kani::stub(PrivateKey::ots_sign, ots_sign_pool)]
+    fn verif_lms_sign_path_all / verif_ncx_lms_sign_path_all => sign_path_leaves(&ALL_LEAVES)
 }
 
 // ------------------------------------------------------------------------
@@ -841,32 +887,29 @@ fn ots_sign_vs_ref() {
         }
         blk += 1;
     }
-    kani::cover!(sig[EXP_OTS_SIGLEN - 1] == 0x77);
-    kani::cover!(sig[4 + EXP_N * (QPOS + 2) - 1] == 0x77);
+    vc!(sig[EXP_OTS_SIGLEN - 1] == 0x77);
+    vc!(sig[4 + EXP_N * (QPOS + 2) - 1] == 0x77);
 }
 
-#[kani::proof]
-#[kani::unwind(256)] // Winternitz chain: at most 2^w - 1 = 255 steps
-#[kani::stub(Hn, hn_00)]
-#[kani::stub(ref_chain, ref_chain_fast)]
-fn verif_lms_ots_sign_ref_c00() {
-    ots_sign_vs_ref();
+twin! {
+    #[kani::unwind(256)] // Winternitz chain: at most 2^w - 1 = 255 steps
+    #[kani::stub(Hn, hn_00)]
+    #[kani::stub(ref_chain, ref_chain_fast)]
+    fn verif_lms_ots_sign_ref_c00 / verif_ncx_lms_ots_sign_ref_c00 => ots_sign_vs_ref()
 }
 
-#[kani::proof]
-#[kani::unwind(256)]
-#[kani::stub(Hn, hn_lo)]
-#[kani::stub(ref_chain, ref_chain_fast)]
-fn verif_lms_ots_sign_ref_q1() {
-    ots_sign_vs_ref();
+twin! {
+    #[kani::unwind(256)]
+    #[kani::stub(Hn, hn_lo)]
+    #[kani::stub(ref_chain, ref_chain_fast)]
+    fn verif_lms_ots_sign_ref_q1 / verif_ncx_lms_ots_sign_ref_q1 => ots_sign_vs_ref()
 }
 
-#[kani::proof]
-#[kani::unwind(256)]
-#[kani::stub(Hn, hn_free)]
-#[kani::stub(ref_chain, ref_chain_fast)]
-fn verif_lms_ots_sign_ref_free() {
-    ots_sign_vs_ref();
+twin! {
+    #[kani::unwind(256)]
+    #[kani::stub(Hn, hn_free)]
+    #[kani::stub(ref_chain, ref_chain_fast)]
+    fn verif_lms_ots_sign_ref_free / verif_ncx_lms_ots_sign_ref_free => ots_sign_vs_ref()
 }
 
 // machinery check: the closed form used for the reference side equals the
@@ -877,10 +920,13 @@ fn chain_eq_case(id: &[u8; 16], q: u32, i: usize, from: usize, to: usize, start:
     assert!(a[k] == b[k]);
 }
 
-#[kani::proof]
-#[kani::unwind(256)]
-#[kani::stub(Hn, hn_ff)]
-fn verif_lms_chain_fast_eq() {
+twin! {
+    #[kani::unwind(256)]
+    #[kani::stub(Hn, hn_ff)]
+    fn verif_lms_chain_fast_eq / verif_ncx_lms_chain_fast_eq => chain_fast_eq_body()
+}
+
+fn chain_fast_eq_body() {
     let id: [u8; 16] = kani::any();
     let q: u32 = kani::any();
     let i: usize = kani::any();
@@ -892,14 +938,17 @@ fn verif_lms_chain_fast_eq() {
     chain_eq_case(&id, q, i, 0, 255, &start, k);
     chain_eq_case(&id, q, i, 0, 31, &start, k);
     chain_eq_case(&id, q, i, 255, 255, &start, k);
-    kani::cover!(k == 0 && start[0] == 0x42);
+    vc!(k == 0 && start[0] == 0x42);
 }
 
 // same, chain entered / left at a symbolic point (thorough tier)
-#[kani::proof]
-#[kani::unwind(256)]
-#[kani::stub(Hn, hn_ff)]
-fn verif_lms_chain_fast_eq_sym() {
+twin! {
+    #[kani::unwind(256)]
+    #[kani::stub(Hn, hn_ff)]
+    fn verif_lms_chainsym_fast_eq / verif_ncx_lms_chainsym_fast_eq => chain_fast_eq_sym_body()
+}
+
+fn chain_fast_eq_sym_body() {
     let id: [u8; 16] = kani::any();
     let q: u32 = kani::any();
     let i: usize = kani::any();
@@ -911,9 +960,9 @@ fn verif_lms_chain_fast_eq_sym() {
     kani::assume(from <= 255);
     chain_eq_case(&id, q, i, from, 255, &start, k);
     chain_eq_case(&id, q, i, 0, from, &start, k);
-    kani::cover!(from == 0 && k == 0);
-    kani::cover!(from == 255 && k == 0);
-    kani::cover!(from == 100 && k == 0);
+    vc!(from == 0 && k == 0);
+    vc!(from == 255 && k == 0);
+    vc!(from == 100 && k == 0);
 }
 
 // ------------------------------------------------------------------------
@@ -934,49 +983,46 @@ fn verify_vs_ref() {
         // only in native playback: the pair is an honest one and must be accepted
         assert!(got);
     }
-    kani::cover!(got);
-    kani::cover!(!got && ref_strtou32(&sig, 0) >= NLEAF);
-    kani::cover!(!got && ref_strtou32(&sig, 0) < NLEAF && ref_strtou32(&sig, 4) != EXP_OTS_TYPE);
-    kani::cover!(!got && ref_strtou32(&sig, 0) < NLEAF && ref_strtou32(&sig, 4) == EXP_OTS_TYPE
+    vc!(got);
+    vc!(!got && ref_strtou32(&sig, 0) >= NLEAF);
+    vc!(!got && ref_strtou32(&sig, 0) < NLEAF && ref_strtou32(&sig, 4) != EXP_OTS_TYPE);
+    vc!(!got && ref_strtou32(&sig, 0) < NLEAF && ref_strtou32(&sig, 4) == EXP_OTS_TYPE
         && ref_strtou32(&sig, 4 + EXP_OTS_SIGLEN) != EXP_LMS_TYPE);
-    kani::cover!(!got && ref_strtou32(&sig, 0) < NLEAF && ref_strtou32(&sig, 4) == EXP_OTS_TYPE
+    vc!(!got && ref_strtou32(&sig, 0) < NLEAF && ref_strtou32(&sig, 4) == EXP_OTS_TYPE
         && ref_strtou32(&sig, 4 + EXP_OTS_SIGLEN) == EXP_LMS_TYPE);
 }
 
-#[kani::proof]
-#[kani::unwind(256)]
-#[kani::stub(Hn, hn_ff)]
-#[kani::stub(Hm, hm_lean)]
-#[kani::stub(Hnx, hnx_lean)]
-#[kani::stub(honest, honest_any)]
-#[kani::stub(is_native, is_native_no)]
-#[kani::stub(ref_chain, ref_chain_fast)]
-fn verif_lms_verify_ref_cff() {
-    verify_vs_ref();
+twin! {
+    #[kani::unwind(256)]
+    #[kani::stub(Hn, hn_ff)]
+    #[kani::stub(Hm, hm_lean)]
+    #[kani::stub(Hnx, hnx_lean)]
+    #[kani::stub(honest, honest_any)]
+    #[kani::stub(is_native, is_native_no)]
+    #[kani::stub(ref_chain, ref_chain_fast)]
+    fn verif_lms_verify_ref_cff / verif_ncx_lms_verify_ref_cff => verify_vs_ref()
 }
 
-#[kani::proof]
-#[kani::unwind(256)]
-#[kani::stub(Hn, hn_hi)]
-#[kani::stub(Hm, hm_lean)]
-#[kani::stub(Hnx, hnx_lean)]
-#[kani::stub(honest, honest_any)]
-#[kani::stub(is_native, is_native_no)]
-#[kani::stub(ref_chain, ref_chain_fast)]
-fn verif_lms_verify_ref_q1() {
-    verify_vs_ref();
+twin! {
+    #[kani::unwind(256)]
+    #[kani::stub(Hn, hn_hi)]
+    #[kani::stub(Hm, hm_lean)]
+    #[kani::stub(Hnx, hnx_lean)]
+    #[kani::stub(honest, honest_any)]
+    #[kani::stub(is_native, is_native_no)]
+    #[kani::stub(ref_chain, ref_chain_fast)]
+    fn verif_lms_verify_ref_q1 / verif_ncx_lms_verify_ref_q1 => verify_vs_ref()
 }
 
-#[kani::proof]
-#[kani::unwind(256)]
-#[kani::stub(Hn, hn_free)]
-#[kani::stub(Hm, hm_lean)]
-#[kani::stub(Hnx, hnx_lean)]
-#[kani::stub(honest, honest_any)]
-#[kani::stub(is_native, is_native_no)]
-#[kani::stub(ref_chain, ref_chain_fast)]
-fn verif_lms_verify_ref_free() {
-    verify_vs_ref();
+twin! {
+    #[kani::unwind(256)]
+    #[kani::stub(Hn, hn_free)]
+    #[kani::stub(Hm, hm_lean)]
+    #[kani::stub(Hnx, hnx_lean)]
+    #[kani::stub(honest, honest_any)]
+    #[kani::stub(is_native, is_native_no)]
+    #[kani::stub(ref_chain, ref_chain_fast)]
+    fn verif_lms_verify_ref_free / verif_ncx_lms_verify_ref_free => verify_vs_ref()
 }
 
 // ------------------------------------------------------------------------
@@ -984,12 +1030,15 @@ fn verif_lms_verify_ref_free() {
 // the right length, any q: u32 (the type word decides acceptance; the
 // candidate key must agree lane by lane)
 
-#[kani::proof]
-#[kani::unwind(256)]
-#[kani::stub(Hn, hn_ff)]
-#[kani::stub(Hnx, hnx_lean)]
-#[kani::stub(ref_chain, ref_chain_fast)]
-fn verif_lms_ots_verify_ref_cff() {
+twin! {
+    #[kani::unwind(256)]
+    #[kani::stub(Hn, hn_ff)]
+    #[kani::stub(Hnx, hnx_lean)]
+    #[kani::stub(ref_chain, ref_chain_fast)]
+    fn verif_lms_ots_verify_ref_cff / verif_ncx_lms_ots_verify_ref_cff => ots_verify_ref_cff_body()
+}
+
+fn ots_verify_ref_cff_body() {
     let pk = PublicKey { I: kani::any(), T1: kani::any() };
     let q: u32 = kani::any();
     let osig: [u8; ots_siglen] = kani::any();
@@ -998,7 +1047,7 @@ fn verif_lms_ots_verify_ref_cff() {
     let exp = ref_ots_kc(&pk.I, q, &osig, &msg);
     match (got, exp) {
         (None, None) => {
-            kani::cover!(ref_strtou32(&osig, 0) == (EXP_OTS_TYPE ^ 0x0100_0000));
+            vc!(ref_strtou32(&osig, 0) == (EXP_OTS_TYPE ^ 0x0100_0000));
         }
         (Some(x), Some(y)) => {
             let xl = lanes_n(&x);
@@ -1008,7 +1057,7 @@ fn verif_lms_ots_verify_ref_cff() {
                 assert!(xl[u] == yl[u]);
                 u += 1;
             }
-            kani::cover!(x[0] == 0x42);
+            vc!(x[0] == 0x42);
         }
         _ => {
             assert!(false);
@@ -1055,15 +1104,14 @@ fn ots_verify_standin(pk: PublicKey, q: u32, sig: &[u8], msg: &[u8]) -> Option<[
     kc_standin(&pk.I, q, sig, msg)
 }
 
-#[kani::proof]
-#[kani::unwind(66)]
-#[kani::stub(PublicKey::ots_verify, ots_verify_standin)]
-#[kani::stub(ref_ots_kc, kc_standin)]
-#[kani::stub(Hm, hm_lean)]
-#[kani::stub(honest, honest_any)]
-#[kani::stub(is_native, is_native_no)]
-fn verif_lms_verify_layer() {
-    verify_vs_ref();
+twin! {
+    #[kani::unwind(66)]
+    #[kani::stub(PublicKey::ots_verify, ots_verify_standin)]
+    #[kani::stub(ref_ots_kc, kc_standin)]
+    #[kani::stub(Hm, hm_lean)]
+    #[kani::stub(honest, honest_any)]
+    #[kani::stub(is_native, is_native_no)]
+    fn verif_lms_verify_layer / verif_ncx_lms_verify_layer => verify_vs_ref()
 }
 
 // ------------------------------------------------------------------------
@@ -1118,10 +1166,10 @@ fn verify_reject_body() {
         bad[(4 + EXP_OTS_SIGLEN)..(8 + EXP_OTS_SIGLEN)].copy_from_slice(&ref_u32str(word));
     }
     assert!(!pk.verify(&bad, &msg));
-    kani::cover!(which == 0 && word == NLEAF);
-    kani::cover!(which == 1 && word == (EXP_OTS_TYPE ^ 0x0100_0000));
-    kani::cover!(which == 1 && word == (EXP_OTS_TYPE ^ 1));
-    kani::cover!(which == 2 && word == (EXP_LMS_TYPE ^ 0x0001_0000));
+    vc!(which == 0 && word == NLEAF);
+    vc!(which == 1 && word == (EXP_OTS_TYPE ^ 0x0100_0000));
+    vc!(which == 1 && word == (EXP_OTS_TYPE ^ 1));
+    vc!(which == 2 && word == (EXP_LMS_TYPE ^ 0x0001_0000));
 }
 
 // Shallow variant: on a correct tree every rejection happens before any loop of
@@ -1129,24 +1177,22 @@ fn verify_reject_body() {
 // assertions prove it.  If they fail (the rejected input gets past the checks)
 // the driver escalates to the deep twin, which unwinds the Winternitz chains
 // fully and yields a replayable counterexample.
-#[kani::proof]
-#[kani::unwind(3)]
-#[kani::stub(Hn, hn_ff)]
-#[kani::stub(Hm, hm_lean)]
-#[kani::stub(Hnx, hnx_lean)]
-#[kani::stub(honest, honest_any)]
-#[kani::stub(is_native, is_native_no)]
-fn verif_lms_verify_reject_shallow() {
-    verify_reject_body();
+twin! {
+    #[kani::unwind(3)]
+    #[kani::stub(Hn, hn_ff)]
+    #[kani::stub(Hm, hm_lean)]
+    #[kani::stub(Hnx, hnx_lean)]
+    #[kani::stub(honest, honest_any)]
+    #[kani::stub(is_native, is_native_no)]
+    fn verif_lms_verify_reject_shallow / verif_ncx_lms_verify_reject_shallow => verify_reject_body()
 }
 
-#[kani::proof]
-#[kani::unwind(256)]
-#[kani::stub(Hn, hn_ff)]
-#[kani::stub(Hm, hm_lean)]
-#[kani::stub(Hnx, hnx_lean)]
-#[kani::stub(honest, honest_any)]
-#[kani::stub(is_native, is_native_no)]
-fn verif_lms_verify_reject_deep() {
-    verify_reject_body();
+twin! {
+    #[kani::unwind(256)]
+    #[kani::stub(Hn, hn_ff)]
+    #[kani::stub(Hm, hm_lean)]
+    #[kani::stub(Hnx, hnx_lean)]
+    #[kani::stub(honest, honest_any)]
+    #[kani::stub(is_native, is_native_no)]
+    fn verif_lms_verify_reject_deep / verif_ncx_lms_verify_reject_deep => verify_reject_body()
 }
